@@ -30,7 +30,7 @@ RULE = (
     "order (task t may complete at position j iff t < j+W; other pools in submission order - sound because every "
     "pool's output is part of the compared observation, see DESIGN.md E3a). Pools with <= 5 tasks: stateless "
     "enumeration of all orders; larger: explicit-state search, state = (consumed task set, hash of the consumer "
-    "frame's picklable locals). Plus: all pools jointly with <= 2 deviations from submission order. Oracle: "
+    "frame's picklable locals). Plus: all pools jointly with <= 2 deviations from submission order. Plus (boundary): pickle round trips of Configuration / BinningConfig / Binning / ScalesConfig for method {linear, comoving, logspace, custom} x closed x cosmology {Planck15, WMAP9, instance, custom} x unit {deg, kpc} mean the same afterwards. Oracle: "
     "observation bit-identical to the sequential (W=1, no pool) run. Inputs have pairwise different per-patch "
     "contents (asserted). Non-trivial: a pool with >= 2 tasks and an order differing from submission order ran."
 )
@@ -73,12 +73,62 @@ def cases(tier, seed):
     for entry in ("load", "hist", "trees-binned") if tier == "quick" else ENTRIES:
         for focus in range(NPOOLS[entry]):
             out.append(dict(entry=entry, npatch=9, W=2, focus=focus, closed="right", seed=seed))
+    # what is handed to the workers (pickled) must mean the same on the other side
+    for method, closed, cosmo, unit in itertools.product(("linear", "comoving", "logspace", "custom"), ("right", "left"),
+                                                       ("Planck15", "WMAP9", "inst:WMAP7", "custom"), ("deg", "kpc")):
+        out.append(dict(entry="boundary", method=method, closed=closed, cosmology=cosmo, unit=unit, seed=seed))
     # real pools, one process: every sequence of two measurements over binnings {A,B} x workers {1,2}; the second
     # result must equal the same measurement made alone and sequentially (separate-process memory is not part of
     # the virtual pool's model, so this part runs free on the real multiprocessing module)
     for (b1, w1), (b2, w2) in itertools.product(itertools.product("AB", (1, 2)), repeat=2):
         out.append(dict(entry="realpool-seq", scenario=[[b1, w1], [b2, w2]], seed=seed))
     return out
+
+
+def run_boundary(case):
+    """Pickle round trip (the process boundary of multiprocessing and MPI) of a configuration and its parts."""
+    import yaw
+    from checks import c15
+
+    kw = dict(rmin=[100.0, 300.0] if case["unit"] == "kpc" else [0.1, 0.3], rmax=[900.0, 2500.0] if case["unit"] == "kpc" else [0.9, 2.5],
+              unit=case["unit"], closed=case["closed"], cosmology=c15.cosmo_obj(case["cosmology"]), rweight=-0.5, resolution=7)
+    if case["method"] == "custom":
+        kw["edges"] = [0.1, 0.2, 0.35, 0.6]
+    else:
+        kw.update(zmin=0.07, zmax=1.3, num_bins=4, method=case["method"])
+    conf = yaw.Configuration.create(**kw)
+    viols = []
+
+    def same(a, b, what):
+        ea, eb = c15.describe(a), c15.describe(b)
+        diff = c15.same_meaning(ea, eb, tol=0.0)
+        if diff is not None:
+            viols.append(dict(signature=f"C05/boundary/{what}-differs:{diff}/{case['method']}",
+                              what=f"a pickled {what} means something else on the other side of the process boundary: {diff} "
+                                   f"{ea[diff]} -> {eb[diff]} ({case})"))
+
+    try:
+        back = pickle.loads(pickle.dumps(conf))
+        same(conf, back, "Configuration")
+        if not (back == conf):
+            viols.append(dict(signature="C05/boundary/Configuration-unequal", what=f"unpickled Configuration != original ({case})"))
+        bconf = pickle.loads(pickle.dumps(conf.binning))
+        if not np.array_equal(bconf.edges, conf.binning.edges) or str(bconf.closed) != str(conf.binning.closed):
+            viols.append(dict(signature=f"C05/boundary/BinningConfig-differs/{case['method']}",
+                              what=f"unpickled BinningConfig has edges {np.asarray(bconf.edges).tolist()} / {bconf.closed}, "
+                                   f"original {conf.binning.edges.tolist()} / {conf.binning.closed} ({case})"))
+        b = pickle.loads(pickle.dumps(conf.binning.binning))
+        if not np.array_equal(b.edges, conf.binning.edges) or str(b.closed) != case["closed"]:
+            viols.append(dict(signature="C05/boundary/Binning-differs", what=f"unpickled Binning differs ({case})"))
+        sc = pickle.loads(pickle.dumps(conf.scales))
+        if not (sc == conf.scales):
+            viols.append(dict(signature="C05/boundary/ScalesConfig-unequal", what=f"unpickled ScalesConfig != original ({case})"))
+    except Exception as e:
+        viols.append(dict(signature=f"C05/boundary/exception:{type(e).__name__}", what=f"{case}: {yawx.exc_name(e)}"))
+    res = dict(nontrivial=True, key=case, counters=dict(executions=1, states=1, transitions=1))
+    if viols:
+        res.update(status="violation", violations=viols[:3])
+    return res
 
 
 def run_realpool_seq(case):
@@ -267,6 +317,8 @@ def distinct_contents(cats):
 def run_case(case):
     if case["entry"] == "realpool-seq":
         return run_realpool_seq(case)
+    if case["entry"] == "boundary":
+        return run_boundary(case)
     import time as _t
     t0 = _t.time()
     entry, npatch, W = case["entry"], case["npatch"], case["W"]
